@@ -78,7 +78,7 @@ var c14Long = map[string]string{
 // line alphabet: valid entries, headers, noise, faults
 var c14Lines = []string{
 	"S = a", "I = 5", "L = x", "M = k:1", "B = true", `S = "q z"`, "G = g", "C = c",
-	"[Application Options]", "[Grp]", "[cmd]", "[UpCmd]", "U = u", "[db.migrate]", "D = d", "Ch = red", "Ch = blue", "# <70000>", "Fn = x",
+	"[Application Options]", "[Grp]", "[cmd]", "[UpCmd]", "U = u", "[db.migrate]", "D = d", "Ch = red", "Ch = blue", "# <70000>", "Fn = x", "B = maybe",
 	"", "   ", "; c", "# c = 1", "; <4095>", "# <4096>", "S = <4097>", "; <10000>", "S = <4092>", "S = <8188>",
 	"nokey", `S = "abc`, "[open", "[]", "Zzz = 1", "I = x", "M = k:", "[Nope]", "  L  =  y  ",
 }
@@ -119,9 +119,13 @@ func c14Run(d *decl.Decl, text string) (b *decl.Built, err error, pan interface{
 			pan, site = r, explore.PanicSite()
 		}
 	}()
-	err = flags.NewIniParser(b.Parser).Parse(bytes.NewReader([]byte(text)))
+	ip := flags.NewIniParser(b.Parser)
+	ip.ParseAsDefaults = c14AsDefaults
+	err = ip.Parse(bytes.NewReader([]byte(text)))
 	return
 }
+
+var c14AsDefaults bool // per leaf: the file is read in as-defaults mode (faults are faults all the same)
 
 // c14Compare checks the real result against the model's outcome.
 func c14Compare(c *explore.Ctx, d *decl.Decl, b *decl.Built, out *ref.IniOutcome, err error, class string) {
@@ -220,6 +224,11 @@ func init() {
 		if n == 0 {
 			c14AddedOption(c, ignore, crlf)
 		}
+		c14AsDefaults = n >= 1 && n <= 2 && c.Bool()
+		defer func() { c14AsDefaults = false }()
+		if c14AsDefaults {
+			c.Hit("as-defaults")
+		}
 		var lines []string
 		var idx []int
 		pool := c14AllIdx
@@ -245,7 +254,7 @@ func init() {
 			for _, k := range idx {
 				show = append(show, c14Lines[k])
 			}
-			return map[string]interface{}{"part": "line-files", "ignore_unknown": ignore, "crlf": crlf, "final_newline": !noFinalNL, "lines": show}
+			return map[string]interface{}{"part": "line-files", "ignore_unknown": ignore, "crlf": crlf, "final_newline": !noFinalNL, "as_defaults": c14AsDefaults, "lines": show}
 		})
 		b, err, pan, site := c14Run(d, text)
 		if pan != nil {
@@ -272,8 +281,8 @@ func init() {
 		ShardDepth: 5,
 		Body:       body,
 		Rule: "(i) every byte string of length <= 6 (thorough: <= 7 without IgnoreUnknown) over {[ ] = \" : ; # space LF CR a \\ 0xFF} read into a declaration whose option, ini-name and group are reachable over that alphabet (map option a, group a, ini-name aa); " +
-			"(ii) every file of <= 3 (quick) / <= 4 (thorough) lines over 38 lines, and of 4 / 5 lines over the 29 of them that are short: 8 valid entries (scalar, int, slice, map, bool, quoted, group and command options), a value given to a func() option (may be rejected with its line, must not panic), 3 headers, 8 noise lines (empty, blanks, ; and # comments, 4095/4096/10000-byte comments, a 4097-byte value) and 2 entries whose line is exactly one / two read buffers long (4096 / 8192 bytes), " +
-			"9 faults (no '=', bad quoting, open header, empty header, unknown option, unconvertible int, empty map value, unknown section, padded entry) x LF/CRLF x final newline present/absent; both with and without IgnoreUnknown; " +
+			"(ii) every file of <= 3 (quick) / <= 4 (thorough) lines over 39 lines, and of 4 / 5 lines over the 30 of them that are short: 8 valid entries (scalar, int, slice, map, bool, quoted, group and command options), a value given to a func() option (may be rejected with its line, must not panic), 3 headers, 8 noise lines (empty, blanks, ; and # comments, 4095/4096/10000-byte comments, a 4097-byte value) and 2 entries whose line is exactly one / two read buffers long (4096 / 8192 bytes), " +
+			"10 faults (a bool given a word that is no boolean, no '=', bad quoting, open header, empty header, unknown option, unconvertible int, empty map value, unknown section, padded entry) x LF/CRLF x final newline present/absent (files of one or two lines also read in as-defaults mode); both with and without IgnoreUnknown; " +
 			"oracle: returns normally; reference reader: no fault => no error and the values the entries denote (noise and line ends change nothing); faults => the error is one of them, IniError carrying exactly its 1-based line or ErrUnknownGroup; the first syntax fault always wins; " +
 			"distinct = distinct (error class, fault list, assigned options)",
 		Assumptions:  []string{"options assigned from more than one section are not compared (section order is C15's subject)", "values are not compared once an error is returned"},
